@@ -52,6 +52,7 @@ struct MockT {
   MAKE_MOCK0(z, void());
   MAKE_MOCK1(v, void(const std::vector<Tracked>&));
   MAKE_MOCK1(p, (std::pair<int, int>(int)));
+  MAKE_CONST_MOCK1(f, int(int));   // const overload of f(int): expectations on it are placed through a const reference
 };
 
 using EP = std::unique_ptr<trompeloeil::expectation>;
@@ -84,6 +85,7 @@ struct ShapeFns { const char* file; MakeFn make[2]; ScopedFn scoped[2]; };
 const ShapeFns& shape_fns(int id);
 
 template <class... T> inline void ignore(T const&...) {}
+template <class M> inline const M& cm(M& m) { return m; }
 
 // where the clause hooks deliver to: the Mode H executor, or a Mode T task
 struct ClauseSink {
